@@ -12,6 +12,7 @@
 -/
 import Bebop.Proofs.Format
 import Bebop.Text.Parser
+import Bebop.Props.Canon
 
 namespace Bebop.Text
 
@@ -28,5 +29,18 @@ theorem C16_format_terminates (inp : List Byte) : (format inp).isSome = true := 
 theorem C16_format_fuel_irrelevant (inp : List Byte) :
     ∃ out, ∀ F, 2 * inp.length + 4 ≤ F → formatLoop F F (mkTR inp) [] false false = some out :=
   format_fuel_stable inp
+
+/-- For every schema of the sub-language of Bebop/Props/Canon.lean (see Props/C11.lean for what it covers) and
+    EVERY layout of its text: Format succeeds, its output is accepted and denotes the same File as the input
+    (here even with the doc comments in place), and the output is the canonical text. -/
+theorem C16_format_preserves_meaning_partial (f : CFile) (hf : CFileOk f) (w : Nat → List Byte)
+    (hw : LayoutOk w (fileLex false f)) :
+    ∃ out, format (laidOutF w f) = some out ∧ readFile out false = readFile (laidOutF w f) false ∧
+      readFile out false = .ok (denote f) ∧ out = canonTextF f := by
+  obtain ⟨out, h1, h2, h3, _, _⟩ := C16_C17_schema_layout_partial f hf w hw
+  refine ⟨out, h1, h2, h3, ?_⟩
+  have := C16_schema_layout_partial f hf w hw
+  rw [h1] at this
+  exact Option.some.inj this
 
 end Bebop.Text
